@@ -137,7 +137,24 @@ func curated() [][]entry {
 		{{"*.a.test", "x.b.test"}, {"*.b.test", "y.a.test"}},
 		{{"*.a.test", "b.test"}, {"x.a.test", "1.1.1.1"}},
 		{{"*.test", "a.test"}, {"a.test", "b.test"}, {"b.test", "a.test"}},
+		longChain(18, "1.1.1.1"), longChain(18, "AAAA"), longChain(40, "::1"),
 	}
+}
+
+// longChain is an acyclic chain of n CNAME entries ("CNAME chains ... of any
+// length") ending in an entry with the value last; the queried name a.test is
+// its first link.
+func longChain(n int, last string) (t []entry) {
+	name := func(i int) string {
+		if i == 0 {
+			return "a.test"
+		}
+		return fmt.Sprintf("hop%d.test", i)
+	}
+	for i := 0; i < n; i++ {
+		t = append(t, entry{name(i), name(i + 1)})
+	}
+	return append(t, entry{name(n), last})
 }
 
 type query struct {
@@ -460,7 +477,18 @@ func (e *env) checkTable(base []entry) {
 			perm[k], perm[i] = perm[i], perm[k]
 		}
 	}
-	rec(0)
+	if n > 6 {
+		// A long table (the chains of the curated list): the given order, the
+		// reverse and one rotation instead of all n! orders.
+		for _, order := range []func(i int) int{func(i int) int { return i }, func(i int) int { return n - 1 - i }, func(i int) int { return (i + n/2) % n }} {
+			for i := range perm {
+				perm[i] = order(i)
+			}
+			rec(n)
+		}
+	} else {
+		rec(0)
+	}
 	c.Count("multisets", 1)
 }
 
